@@ -39,30 +39,32 @@ def run(pid, tier, replay):
     if replay:
         return do_replay(chk, binp, replay)
     quick = chk.quick
-    # the specification's own laws: ParseRule(RuleStr(r)) = r for every enumerated rule, the unescaped spelling is
-    # wrong exactly when a value has an apostrophe, ...
-    rm.mc(chk, "mc/MC_RuleStr.tla", "mc/MC_RuleStr.cfg" if quick else "mc/MC_RuleStr_thorough.cfg")
+    # One TLC run over the rule universe: the specification's own laws (MC_RuleStr: ParseRule(RuleStr(r)) = r, the
+    # unescaped spelling is wrong exactly when a value has an apostrophe, ...) and every rule emitted as a case.
     cases = chk.path("cases.ndjson")
-    g, n = core.tlc_generate("gen/Gen_MatchStr.tla", "gen/Gen_MatchStr_%s.cfg" % ("quick" if quick else "thorough"), cases,
+    g, n = core.tlc_generate("mc/MC_RuleStr.tla", "mc/MC_RuleStr_gen_%s.cfg" % ("quick" if quick else "thorough"), cases,
                              timeout=3000)
+    if n == 0:
+        raise core.ToolError("MC_RuleStr emitted no case")
     chk.add_tlc(g)
-    obs = chk.path("obs_enum.ndjson")
+    chk.add("mc_states", g.distinct)
+    obs = chk.path("obs.ndjson")
     core.run_bin(binp, ["rulestr-obs", cases, obs])
-    out, lines = rm.validate(chk, "RuleStrCheck", obs, shards=8, tags=("MISMATCH", "NOTE"))
-    if len(lines) != n:
-        raise core.ToolError("harness answered %d of %d cases" % (len(lines), n))
-    classify(chk, out["MISMATCH"], lines)
-    chk.add("enumerated_cases", n)
-    chk.cov["exhaustive"] = True
-    total = list(lines)
-    nr = 4000 if quick else 150000
+    if sum(1 for _ in open(obs)) != n:
+        raise core.ToolError("harness answered fewer lines than the %d cases" % n)
+    nr = 3000 if quick else 150000
     robs = chk.path("obs_rand.ndjson")
     core.run_bin(binp, ["rulestr-rand", nr, chk.seed, robs])
-    out, lines = rm.validate(chk, "RuleStrCheck", robs, shards=10, tags=("MISMATCH", "NOTE"))
+    with open(obs, "a") as f, open(robs) as g2:
+        for line in g2:
+            f.write(line)
+    out, lines = rm.validate(chk, "RuleStrCheck", obs, shards=5 if quick else 14, tags=("MISMATCH", "NOTE"))
     classify(chk, out["MISMATCH"], lines)
-    total += lines
+    chk.add("enumerated_cases", n)
+    chk.add("random_cases", len(lines) - n)
+    chk.cov["exhaustive"] = True
+    total = lines
     objs = [json.loads(x) for x in total[:400000]]
-    chk.add("random_cases", len(lines))
     chk.cov["evaluations"] = len(total)
     chk.cov["random_strings"] = sum(1 for o in objs if o["ev"] == "ParseStr")
     chk.cov["random_strings_accepted_by_zbus"] = sum(1 for o in objs if o["ev"] == "ParseStr" and o.get("accepted"))
